@@ -180,7 +180,9 @@ LIGHT = {"aspect", "dcc-aspect-port", "dcc-aspect", "calibration", "board", "seg
 
 
 def queries():
-    qs = mutate_queries() + shape_queries()
+    # "returns 1 ... has released every lock": the state add-functions the parsers call, with duplicate ids / addresses
+    from check import borrow
+    qs = mutate_queries() + shape_queries() + borrow("C11", lambda q: q.name.startswith("add-"))
     for strn in (0, 1, 2, 3, 4, 5, 6, 7):   # (16/17-character inputs, i.e. the unique-id form: CBMC reports a row-overrun in the 2-D scratch array that 3M native ASan runs do not confirm - encoding artefact, removed)
         qs.append(Q("converters-len%d" % strn, "C13_parse.c", COMMON + UNITS[0], env=ENV,
                     defs={"UNIT": 0, "ENTRY": 99, "STRN": strn, "DICT": '"x"', "VERIF_YAML_WORDMAX": 2}, unwind=strn + 3,
